@@ -214,10 +214,16 @@ pub fn run(tier: Tier) -> i32 {
     // scale: many axes (every shape over lengths {1,2} with 6..9 axes) and long axes (255..65537)
     {
         let mut sc = crate::enumerate::scale_shapes(tier.pick(9, 11));
+        // total allele counts beyond 2^24 (the f32 integer limit), odd and even
+        sc.push(vec![16_777_218]);
+        sc.push(vec![16_777_219]);
         if tier.thorough() {
-            // total allele counts beyond 2^24 (the f32 integer limit), odd and even
-            sc.push(vec![16_777_218]);
-            sc.push(vec![16_777_219]);
+            // the same totals spread over two axes, and beyond 2^25
+            sc.push(vec![2, 16_777_217]);
+            sc.push(vec![16_777_217, 2]);
+            sc.push(vec![3, 16_777_217]);
+            sc.push(vec![33_554_434]);
+            sc.push(vec![33_554_435]);
         }
         let res = par_each(&sc, |s| {
             // definition check with integer labels (exact) for two fills; mirror symmetry
@@ -243,7 +249,7 @@ pub fn run(tier: Tier) -> i32 {
             name: "lib: scale (many axes, long axes)".into(),
             evaluations: 2 * sc.len() as u64,
             nontrivial: 2 * sc.len() as u64,
-            note: format!("{} shapes: every shape over lengths {{1,2}} with 6..{} axes, 3^7, (2,3)^4, and axes of 255..65 537 entries alone and next to short axes (thorough: also 2^24+2 and 2^24+3 entries); fills 0 and NaN against the multi-index definition", sc.len(), tier.pick(9, 11)),
+            note: format!("{} shapes: every shape over lengths {{1,2}} with 6..{} axes, 3^7, (2,3)^4, and axes of 255..65 537 entries alone and next to short axes, 2^24+2 and 2^24+3 entries (thorough: also those totals over two axes and 2^25+2, 2^25+3 entries); fills 0 and NaN against the multi-index definition", sc.len(), tier.pick(9, 11)),
             exhaustive: true,
             extra: vec![],
         });
